@@ -1283,7 +1283,10 @@ class FileHashStore(HashStore):
                         f"Permanent file found, checking hex digest for pid: {pid}"
                     )
                     self.fhs_logger.debug(debug_msg)
-                    pid_checksum = self.get_hex_digest(pid, self.algorithm)
+                    # Verify the object found at the permanent address by its own bytes (the pid
+                    # is not tagged yet, or may be tagged to another object)
+                    with open(abs_file_path, "rb") as permanent_obj:
+                        pid_checksum = self._computehash(permanent_obj, self.algorithm)
                     if pid_checksum == hex_digests.get(self.algorithm):
                         # If the checksums match, return and log warning
                         err_msg = (
